@@ -131,6 +131,7 @@ Definition find_width (mx : Z) (p : Q -> Q) : Z :=
 
 (* profiles *)
 Definition rect (h : Q) (d : Q) : Q := if Qle_bool (Qabs d) h then 1 else 0.           (* lambda x: (x.abs() <= h).float() *)
+Definition arect (lo hi : Q) (d : Q) : Q := if Qle_bool lo d && Qle_bool d hi then 1 else 0.   (* lambda x: ((x >= lo) & (x <= hi)).float() *)
 Definition smoothed_rect0 (fwhm : Q) (d : Q) : Q := if Qle_bool (Qabs (d * 2 / fwhm)) 1 then 1 else 0.  (* SliceSmoothedRectangular(fwhm, 0) *)
 
 (* ---- execution / printing ---- *)
